@@ -7,8 +7,19 @@ CONFIG = dict(
              'with Next/Prev (also over Limit and NegativeLimit, where the assertions must fire). Streams: exhaustive insert/delete sequences, random '
              'sequences of 10..400 operations with phases of different insert/delete/query weights over a key universe of 3..60 keys (one quarter '
              'scaled to the full uint32 range, values up to 2^32-1), and walks that fill a tree in ascending/descending/random order and delete '
-             'through a second iterator while iterating forwards or backwards. After EVERY operation the whole arena (every cell: key, value, '
+             'through a second iterator while iterating forwards or backwards; one quarter of the random and walk cases draw their keys from a table '
+             'straddling 2^8, 2^15, 2^16, 2^31 (pairs exactly 2^31 apart) and ending at 2^32-1. After EVERY operation the whole arena (every cell: key, value, '
              'parent, left, right, colour), the gaps, every tree header and Item() of every live iterator are recorded. '
+             'Stream `scale` (cases marked (scale 1), macro operations, harness/cmd/c05/scale.go): trees of 255 .. 262 144 keys in the quick tier and up to '
+             '1 048 577 keys in the thorough tier (sizes at c-1, c, c+1 of 2^8, 2^15, 2^16, 10^3 .. 10^6, and ascending fills beyond the 228 803 keys that make a '
+             'right spine deeper than 32), filled in ascending, descending, shuffled, outside-in, inside-out and sawtooth order, keys 1..n, straddling 2^31, spread up to '
+             '2^32-1 or from 0; on the big tree: CloneDeep, Erase (of the clone and of the tree), complete forward and backward iteration, FindGE / FindLE / Get / Min / Max / Len '
+             'at both ends of the key range and around sampled elements, sweeps that delete every 2nd / 3rd element through a second iterator while iterating in either '
+             'direction, mass deletion by key at the low and at the high end (Min / Max afterwards), refill through the free list, a bystander tree and a clone on the '
+             'same allocator, iterators held across everything. Every answer and every position of every iteration is compared with a sorted map as it comes; at '
+             'CHECKPOINTS (4 to 20 per case) the snapshot of the real arena is judged by the extracted proved-sound oracle (entries and node ids = the map, red-black, '
+             'parent/min/max/count links, logarithmic height) and compared cell for cell with the model trees (run element by element with the tree-level model functions). '
+             'Bulk observations are in the binary side file <trace>.side. '
              'Non-trivial = at least 3 successful insertions and 1 successful deletion; distinct = distinct (number of trees, operation list).',
         exhaustive_note='every sequence of 4 Insert/DeleteWithKey operations over 6 keys (20 736) and of 5 over 4 keys (32 768) in the quick tier; of 5 over '
                         '6 keys (248 832) and of 7 over 3 keys (279 936) in the thorough tier; the arena is compared after every operation, so all shorter sequences are covered as prefixes',
@@ -24,6 +35,8 @@ CONFIG = dict(
             'tied to the code by comparing, after every operation of every case, the result and the complete arena image (to_arena) with the real arena',
             'read-only hooks /repo/internal/rbtree/verif_hooks.go (VerifSnapshot, VerifHeader, VerifNode) and /repo/verifapi/rbtree.go',
             'the gap-complement and zero-cell comparison of the snapshot is done by the OCaml driver itself (allocator bookkeeping is C06)',
+            'scale cases: between checkpoints the sorted map is an OCaml Map kept by the driver (converted to the entry list of Spec.v and judged by the extracted oracle at every checkpoint); '
+            'the model trees are compared with the arena by a traversal written in the driver; bulk observations are read from the side file written by the harness',
         ],
         level_text='Coq theorems (closed under the global context) over the executable Gallina model, for ALL trees / ALL operation sequences on any number of trees '
                    'sharing an allocator and ALL node-index choices of malloc: C05_sequences (induction over the operation list: every reachable state satisfies the invariant '
@@ -34,7 +47,7 @@ CONFIG = dict(
                    'operation on every tree unless that operation removes it - including the predecessor swap of doDelete), C05_arena_links (derived parent links consistent), '
                    'C05_frame (operations on one tree leave the others untouched), C05_oracle_sound (the snapshot oracle used on the real arena is sound).',
         level_note='Proved about the Gallina model, not about the Go text (no verified Go semantics): the tie is the replay - on the unchanged repository zero disagreements on '
-                   'about 55 000 cases / 510 000 operations per quick run, node for node and link for link. Modelled rather than verified: all of rbtree.go. The model is a '
+                   'about 55 000 cases / 510 000 operations per quick run, node for node and link for link, plus 37 large trees (0.85 million insertions, 1.1 million nodes compared at checkpoints). Modelled rather than verified: all of rbtree.go. The model is a '
                    'recursive tree, not a pointer structure: parent links, minNode/maxNode and count are DERIVED from the shape (C05_arena_links proves the derived links consistent; '
                    'that the incrementally maintained Go fields equal the derived ones is checked by the replay and by the oracle on every snapshot). doDelete(node) is modelled as '
                    'deletion of that node\'s key (equal on search trees with distinct ids, which the invariant provides). Several trees on one allocator are separate values in the model, so '
